@@ -413,7 +413,9 @@ def run(ck):
     ck.gen()
     built = ck.coq_make(MODEL + PROOFS, clean=ck.thorough)
     ck.obligations = ck.count_statements(STATEMENT_FILES)
-    proofs_ok = all(built.get(x) for x in PROOFS)
+    # a stale .vo of an earlier run must not count: any compile error in the cone spoils the proofs
+    proofs_ok = all(built.get(x) for x in PROOFS) and not any(
+        b.get("what") in ("proof obligation no longer checks", "coq build failed") for b in ck.broken)
     if proofs_ok and ck.audit("theories/Props/C05.v"):
         ck.discharged = list(ck.obligations)
     if ck.thorough and proofs_ok:
@@ -495,8 +497,12 @@ def run(ck):
             sname = STORES[si][0]
             ck.broken.append({"what": "correspondence: model and implementation disagree",
                               "stream": c["stream"], "history_index": hi, "store": sname})
-            if c["i"] not in failing:
-                ck.violation("corr:%s:%s" % (sname, history_key(c["ops"])),
+            # with the proofs intact the model is the proved one: a history on which
+            # the implementation departs from it is a failing input even if the
+            # Python reference did not notice; with a broken obligation the model
+            # describes other source, and only the oracle's findings count
+            if c["i"] not in failing and proofs_ok:
+                ck.violation("corr:%s:%s" % (sname, c["stream"]),
                              "the %s backend does not behave as the proved model / reference map on this history"
                              % {"m": "memory", "s": "sqlite"}[sname[0]],
                              {"history": c["ops"], "store": sname, "observed": c["obs"][sname],
